@@ -41,6 +41,7 @@ ASSUMPTIONS = [
     "a suspended worker still acts on later signals as a running one would (job-control state is not modelled further)",
     "every successful fork/exec takes at least 1 ms of virtual time, so the workers of one watcher have distinct Process.started "
     "values as on a real kernel (found by the live cross-check docs/LIVE.md D1: with ties the surplus sort would keep dict order)",
+    "the random jitter of max_age (`randint(0, max_age_variance)`) is fixed to the least value the code asks for",
     "one external stimulus per atomic step, then the event loop runs to quiescence; timers fire in (deadline, creation) order",
     "graceful_timeout values are those for which the float loop `waited += 0.1` makes ceil(T/100ms) polls (checked by the generator)",
     "watcher names over ASCII + Latin-1; glob patterns over * and ?; regex matching, on_demand sockets, stream redirection and "
